@@ -614,6 +614,31 @@ Theorem C04_show_zone_whole_minute : forall off, off mod 60 = 0 -> C04Show.zone_
 Proof. exact C04Show.zone_text_whole_minute. Qed.
 Print Assumptions C04_show_zone_whole_minute.
 
+(* ---- z.datenaive: date_naive is the date of the panicking wall-clock reading: the supported date with the
+        wall clock's day number, Panic exactly when the wall clock is in the headroom *)
+Theorem C04_date_naive : forall a, dtz_ok a ->
+  if in_rng (wall a)
+  then exists d, dz_date_naive a = Val d /\ nominal d /\ dn d = wall a / 86400
+  else dz_date_naive a = Panic.
+Proof. exact date_naive_spec. Qed.
+Print Assumptions C04_date_naive.
+(* ---- z.withtz: the fields of with_timezone (its instant: C04_with_timezone_instant) *)
+Theorem C04_with_timezone_fields : forall a off,
+  dz_utc (with_timezone a off) = dz_utc a /\ dz_off (with_timezone a off) = off.
+Proof. exact with_timezone_utc. Qed.
+Print Assumptions C04_with_timezone_fields.
+(* ---- z.acc: the tuple of the dispatcher = the 14 fields of the wall clock (C04_accessors_wallclock and
+        C04_iso_week_wallclock assembled), headroom included *)
+Theorem C04_acc_tuple : forall a, dtz_ok a ->
+  let w := wall a in let n := w / 86400 in let sod := w mod 86400 in
+  let '(y, m, d) := ymd_of_dn n in
+  dz_acc a = Val (VTup [VInt y; VInt m; VInt (m - 1); VInt d; VInt (d - 1);
+                        VInt (ordinal_of_dn n); VInt (ordinal_of_dn n - 1); VInt (weekday_of_dn n);
+                        VInt (sod / 3600); VInt (sod / 60 mod 60); VInt (sod mod 60); VInt (frac (dz_utc a));
+                        VInt (fst (iso_of_dn n)); VInt (snd (iso_of_dn n))]).
+Proof. exact acc_tuple. Qed.
+Print Assumptions C04_acc_tuple.
+
 (* ================================================================================================
    The executable property (Judge/C04.v, the oracle applied to the implementation's outputs) accepts the
    model's output on every case of its domain, for the ops below (Proofs/C04Holds.v).  Date-times / naive
@@ -652,6 +677,19 @@ Theorem C04_holds_pfromlocal : forall off l, ndt_ok l -> off_ok off ->
   Judge.C04.judge B"z.pfromlocal" [VInt off; enc_ndt l] (run B"z.pfromlocal" [VInt off; enc_ndt l]) = JOk.
 Proof. exact C04Holds.holds_pfromlocal. Qed.
 Print Assumptions C04_holds_pfromlocal.
+(* z.show on the domain of the judge's documented text (C09.judge_show 3: whole-minute offset, leap fraction only
+   on second 59; wall clock nominal or in the headroom), Display (form 0) and Debug (form 1) *)
+Theorem C04_holds_show : forall a form, dtz_ok a -> dz_off a mod 60 = 0 ->
+  (frac (dz_utc a) < 1000000000 \/ Time.tsecs (nd_time (dz_utc a)) mod 60 = 59) -> form = 0 \/ form = 1 ->
+  Judge.C04.judge B"z.show" [enc_dtz a; VInt form] (run B"z.show" [enc_dtz a; VInt form]) = JOk.
+Proof. exact C04Holds.holds_show. Qed.
+Print Assumptions C04_holds_show.
+Example C04_show_inhabited :
+  dtz_ok z_max_p2h /\ dz_off z_max_p2h mod 60 = 0 /\ frac (dz_utc z_max_p2h) < 1000000000 /\
+  in_rng (wall z_max_p2h) = false /\
+  Show.to_text (Show.dtz_display false [] z_max_p2h) = Val (B"+262143-01-01 01:59:59.999999999 +02:00").
+Proof. exact C04Holds.show_inhabited. Qed.
+Print Assumptions C04_show_inhabited.
 (* the hypotheses are satisfiable, also by values whose wall clock is in the headroom *)
 Example C04_ops_inhabited :
   off_ok 3600 /\ Judge.C04.off_ok (-86399) = true /\ in_i32 86400 = true /\
